@@ -1673,8 +1673,14 @@ def _cast_numpy(v: typing.Any) -> typing.Any:
     # the shape of the NumPy array (ak.Array(v) puts them outermost for ndim > 1)
     # a momentum array keeps its flavor: its fields get their momentum names
     rename = _repr_generic_to_momentum if isinstance(v, Momentum) else {}
+    # (variable-length lists: Awkward cannot broadcast a record against a regular array)
     return vector.Array(
-        ak.zip({rename.get(name, name): numpy.asarray(v[name]) for name in v.dtype.names})
+        ak.zip(
+            {
+                rename.get(name, name): ak.from_regular(numpy.asarray(v[name]), axis=None)
+                for name in v.dtype.names
+            }
+        )
     )
 
 
